@@ -418,16 +418,24 @@ func runC17(c *Ctx) {
 	// (vii) repeated field as path variable
 	{
 		okList := false
-		ei := errorResultIndex(makeTarget.Signature)
-		for _, call := range Calls(makeTarget) {
-			cv, ok := call.(*ssa.Call)
-			if !ok || !cv.Call.IsInvoke() || cv.Call.Method.Name() != "IsList" {
+		for _, mfn := range SortedFuncs(p.Reach(makeTarget)) {
+			if !p.inScope(mfn) || FuncName(mfn) == "resolvePathToFieldDescriptors" {
 				continue
 			}
-			for _, ref := range *cv.Referrers() {
-				if iff, ok := ref.(*ssa.If); ok {
-					if good, _ := succReturnsOnlyErrors(makeTarget, iff.Block().Succs[0], ei); good {
-						okList = true
+			ei := errorResultIndex(mfn.Signature)
+			if ei < 0 {
+				continue
+			}
+			for _, call := range Calls(mfn) {
+				cv, ok := call.(*ssa.Call)
+				if !ok || !cv.Call.IsInvoke() || cv.Call.Method.Name() != "IsList" {
+					continue
+				}
+				for _, ref := range *cv.Referrers() {
+					if iff, ok := ref.(*ssa.If); ok {
+						if good, _ := succReturnsOnlyErrors(mfn, iff.Block().Succs[0], ei); good {
+							okList = true
+						}
 					}
 				}
 			}
